@@ -42,14 +42,44 @@ Theorem C01_relay_invariant_upstream : forall c t0 evs s r,
 Proof. exact relay_invariant_upstream. Qed.
 Print Assumptions C01_relay_invariant_upstream.
 
-(* the ghost histories are exactly the recv() results of the calls: in one handle_events call each
-   history either stays or grows by the data piece that call's recv() on that socket returned *)
+(* the ghost histories are exactly the recv() results of the calls: in one handle_events call the upstream
+   history either stays or grows by the data piece that call's upstream.recv() returned; the client history
+   stays, or grows by the whole piece the client recv() returned, or — only in the call that completes the
+   first request (e222aa4) — by [req_rem (req ev)], the part of that piece that follows the end of the
+   request (that this is a SUFFIX of the piece is the parser's contract, C03; the harness checks it on
+   every case against the raw client bytes). *)
 Theorem C01_histories_are_recv_results : forall c ev s s' r,
   handle_events c ev s = (s', r) ->
   (g_up_rcvd s' = g_up_rcvd s \/ (u_r ev = true /\ g_up_rcvd s' = g_up_rcvd s ++ recv_data (u_recv ev))) /\
-  (g_cl_rcvd s' = g_cl_rcvd s \/ (c_r ev = true /\ g_cl_rcvd s' = g_cl_rcvd s ++ recv_data (c_recv ev))).
+  (g_cl_rcvd s' = g_cl_rcvd s \/
+   (c_r ev = true /\ (g_cl_rcvd s' = g_cl_rcvd s ++ recv_data (c_recv ev) \/
+                      g_cl_rcvd s' = g_cl_rcvd s ++ req_rem (req ev)))).
 Proof. exact ghost_handle_events. Qed.
 Print Assumptions C01_histories_are_recv_results.
+
+(* which of the two: at the handle_data boundary, the whole piece once the first request is complete, only
+   the remainder in the call that completes it; never both, never twice *)
+Theorem C01_histories_at_handle_data : forall c ev s data s' r,
+  handle_data c ev s data = (s', r) ->
+  g_up_rcvd s' = g_up_rcvd s /\
+  (g_cl_rcvd s' = g_cl_rcvd s \/
+   (req_complete s = true /\ g_cl_rcvd s' = g_cl_rcvd s ++ data) \/
+   (req_complete s = false /\ g_cl_rcvd s' = g_cl_rcvd s ++ req_rem (req ev))).
+Proof. exact ghost_handle_data. Qed.
+Print Assumptions C01_histories_at_handle_data.
+
+(* CONNECT and tunnel payload in ONE segment: the call that establishes the tunnel queues the acknowledgement
+   for the client and the bytes behind the request for the upstream — all of them, once, nothing sent yet;
+   from then on C01_relay_invariant_upstream (whose g_cl_rcvd now starts with these bytes) takes over *)
+Theorem C01_connect_with_payload : forall c ev s data rebuilt rem,
+  req_complete s = false -> req ev = RProxy true rebuilt rem ->
+  exists s', handle_data c ev s data = (s', Some false) /\
+    established s' /\ is_tunnel s' = true /\
+    delivered_upstream s' = [] /\ pending_upstream s' = rem /\
+    g_cl_rcvd s' = g_cl_rcvd s ++ rem /\
+    pending (work s') = pending (work s) ++ ack c.
+Proof. exact connect_with_payload. Qed.
+Print Assumptions C01_connect_with_payload.
 
 (* progress: a call in which the client socket is reported writable and accepts k > 0 bytes while a
    non-empty piece is at the head of the buffer delivers at least one more byte *)
@@ -88,21 +118,21 @@ Theorem C01_tunnel_handler_invariant : forall c t0 evs s r u,
 Proof. exact tunnel_relay_invariant. Qed.
 Print Assumptions C01_tunnel_handler_invariant.
 
-(* ---- non-vacuity: a CONNECT tunnel, acknowledgement and upstream data crossing max_send = 3 with
-   short writes and a would-block; the hypotheses of the theorems are met by a concrete run *)
+(* ---- non-vacuity: a CONNECT with two payload bytes in the same segment, acknowledgement and upstream data
+   crossing max_send = 3 with short writes and a would-block; the hypotheses are met by a concrete run *)
 Definition ex_cfg : cfg := mkCfg 3 (bs "HTTP/1.1 200 Connection established") 10240 true.
 Definition ex_ev (cr cw ur uw : bool) (cs : outcome) (crv urv : recv_res) (rq : req_outcome) : event :=
   mkEvent 5 cr cw ur uw cs (Accept 100) crv urv rq DNothing.
 Definition ex_events : list event :=
-  [ ex_ev true false false false (Accept 100) (RData (bs "CONNECT h:443 HTTP/1.1")) ROsErr (RProxy true [] []);
+  [ ex_ev true false false false (Accept 100) (RData (bs "CONNECT h:443 HTTP/1.1" ++ [22; 3])) ROsErr (RProxy true [] [22; 3]);
     ex_ev false true true false (Accept 2) ROsErr (RData [0; 255; 13; 10; 7]) RIncomplete;
     ex_ev true true true true WouldBlock (RData [1; 2; 3; 4]) (RData [9]) RIncomplete;
     ex_ev false true false true (Accept 100) ROsErr ROsErr RIncomplete ].
 Example C01_nonvacuous :
   let '(s, r) := run ex_cfg (init 0) ex_events in
   r = Continue /\ established s /\ is_tunnel s = true /\
-  g_up_rcvd s = [0; 255; 13; 10; 7; 9] /\ g_cl_rcvd s = [1; 2; 3; 4] /\
-  delivered_client s = bs "HTTP/" /\ delivered_upstream s = [1; 2; 3] /\ pending_upstream s = [4] /\
+  g_up_rcvd s = [0; 255; 13; 10; 7; 9] /\ g_cl_rcvd s = [22; 3; 1; 2; 3; 4] /\
+  delivered_client s = bs "HTTP/" /\ delivered_upstream s = [22; 3; 1; 2; 3] /\ pending_upstream s = [4] /\
   has_buffer (work s) = true.
 Proof.
   vm_compute. repeat split; try reflexivity. eexists; reflexivity.
